@@ -1657,8 +1657,8 @@ FALLBACK = {
     r" as PartialOrd(<.*>)?>::le$": _rel(lambda lt, eq: z3.Or(lt, eq)),
     r" as PartialOrd(<.*>)?>::gt$": _rel(lambda lt, eq: z3.And(z3.Not(lt), z3.Not(eq))),
     r" as PartialOrd(<.*>)?>::ge$": _rel(lambda lt, eq: z3.Not(lt)),
-    r"^(std|core)::cmp::max$| as Ord>::max$|<impl " + INTS + r">::max$": m_max,
-    r"^(std|core)::cmp::min$| as Ord>::min$|<impl " + INTS + r">::min$": m_min,
+    r"^(std|core)::cmp::max$| as Ord>::max$|(^|::)num::(.*::)?max$": m_max,
+    r"^(std|core)::cmp::min$| as Ord>::min$|(^|::)num::(.*::)?min$": m_min,
     r"(cmp::)?Ordering::reverse$": m_ord_reverse,
     r"(cmp::)?Ordering::then$": m_ord_then,
     r"(cmp::)?Ordering::then_with$": m_ord_then_with,
@@ -1669,24 +1669,24 @@ FALLBACK = {
     r"(cmp::)?Ordering::is_le$": _ord_is(lambda d: d != bv(1)),
     r"(cmp::)?Ordering::is_ge$": _ord_is(lambda d: d != bv(LESS)),
     # integers
-    r"<impl " + INTS + r">::saturating_sub$": m_saturating_sub,
-    r"<impl " + INTS + r">::saturating_add$": m_saturating_add,
-    r"<impl " + INTS + r">::saturating_mul$": m_saturating_mul,
-    r"<impl " + INTS + r">::checked_add$": _checked("add"),
-    r"<impl " + INTS + r">::checked_sub$": _checked("sub"),
-    r"<impl " + INTS + r">::checked_mul$": _checked("mul"),
-    r"<impl " + INTS + r">::wrapping_add$": _wrapping("add"),
-    r"<impl " + INTS + r">::wrapping_sub$": _wrapping("sub"),
-    r"<impl " + INTS + r">::wrapping_mul$": _wrapping("mul"),
-    r"<impl " + INTS + r">::overflowing_add$": _overflowing("add"),
-    r"<impl " + INTS + r">::overflowing_sub$": _overflowing("sub"),
-    r"<impl " + INTS + r">::overflowing_mul$": _overflowing("mul"),
-    r"<impl " + INTS + r">::abs_diff$": m_abs_diff,
-    r"<impl " + INTS + r">::is_power_of_two$": m_is_power_of_two,
-    r"<impl " + INTS + r">::count_ones$": m_count_ones,
-    r"<impl " + INTS + r">::leading_zeros$": m_leading_zeros,
-    r"<impl " + INTS + r">::trailing_zeros$": m_trailing_zeros,
-    r"<impl " + INTS + r">::pow$": m_pow,
+    r"(^|::)num::(.*::)?saturating_sub$": m_saturating_sub,
+    r"(^|::)num::(.*::)?saturating_add$": m_saturating_add,
+    r"(^|::)num::(.*::)?saturating_mul$": m_saturating_mul,
+    r"(^|::)num::(.*::)?checked_add$": _checked("add"),
+    r"(^|::)num::(.*::)?checked_sub$": _checked("sub"),
+    r"(^|::)num::(.*::)?checked_mul$": _checked("mul"),
+    r"(^|::)num::(.*::)?wrapping_add$": _wrapping("add"),
+    r"(^|::)num::(.*::)?wrapping_sub$": _wrapping("sub"),
+    r"(^|::)num::(.*::)?wrapping_mul$": _wrapping("mul"),
+    r"(^|::)num::(.*::)?overflowing_add$": _overflowing("add"),
+    r"(^|::)num::(.*::)?overflowing_sub$": _overflowing("sub"),
+    r"(^|::)num::(.*::)?overflowing_mul$": _overflowing("mul"),
+    r"(^|::)num::(.*::)?abs_diff$": m_abs_diff,
+    r"(^|::)num::(.*::)?is_power_of_two$": m_is_power_of_two,
+    r"(^|::)num::(.*::)?count_ones$": m_count_ones,
+    r"(^|::)num::(.*::)?leading_zeros$": m_leading_zeros,
+    r"(^|::)num::(.*::)?trailing_zeros$": m_trailing_zeros,
+    r"(^|::)num::(.*::)?pow$": m_pow,
     # Option / Result / bool
     r"(^|::)Option::filter$": m_opt_filter,
     r"(^|::)Option::is_some_and$": m_opt_is_some_and,
@@ -1703,14 +1703,15 @@ FALLBACK = {
     r"(^|::)Option::flatten$": m_opt_flatten,
     r"(^|::)Option::unwrap_unchecked$": m_opt_unwrap_unchecked,
     r"(^|::)Option::(iter|into_iter)$|^<Option as IntoIterator>::into_iter$": lambda eng, ctx, f, path, args, dty: Native("optiter", _opt(eng, ctx, args[0])),
-    r"<impl bool>::then$|^bool::then$": m_bool_then,
-    r"<impl bool>::then_some$|^bool::then_some$": m_bool_then_some,
+    r"(^|::)bool::(.*::)?then$": m_bool_then,
+    r"(^|::)bool::(.*::)?then_some$": m_bool_then_some,
     r"(^|::)Result::unwrap_or$": m_res_unwrap_or,
     r"(^|::)Result::is_ok_and$": m_res_is_ok_and,
     r"(^|::)Result::unwrap_or_default$": m_res_unwrap_or_default,
     r"(^|::)Result::(unwrap_err|expect_err)$": m_res_unwrap_err,
     r" as Default>::default$": m_default,
     # mem / cells / once
+    r"^(std|core)::mem::(drop|forget)$": lambda *a: UNIT,      # (a /repo type with a Drop impl is handled by the engine before the models)
     r"^(std|core)::mem::swap$": m_mem_swap,
     r"^(std|core)::mem::replace$": m_mem_replace,
     r"^(std|core)::mem::take$": m_mem_take,
